@@ -45,5 +45,31 @@ try:
         out.append("| %s | %s:%s | %s | %s %s `%s` |" % (rt[r['id']]['old_id'], r['file'], r['line'], r['kind'], r['status'], r.get('check', ''), r.get('signature', '')[:80].replace("|", "\\|")))
 except FileNotFoundError:
     pass
+# second generation
+try:
+    rows2 = [json.loads(l) for l in open('/verif/mutation/results-gen2.jsonl')]
+    tri2 = {int(k): v for k, v in json.load(open('/verif/mutation/triage-gen2.json')).items()}
+    c2 = collections.Counter(r['status'] for r in rows2)
+    k2 = collections.Counter(r['check'] for r in rows2 if r['status'] == 'killed-by-check')
+    out.append("\n## Second generation of operators (at /repo commit bf45592)\n")
+    out.append("Whole `if` statements without else deleted (a guard or a validation removed), `else` branches deleted, calls of `copy*` helpers replaced by their argument (aliasing), slice lower bound 1 -> 0: %d mutants (`mutants-gen2.jsonl`, `results-gen2.jsonl`).\n" % len(rows2))
+    out.append("| outcome | count |\n|---|---|")
+    for k, v in c2.most_common():
+        out.append(f"| {k} | {v} |")
+    out.append("\nOf the %d the suite lets through the checks report %d; by check: %s.\n" % (c2['SURVIVED'] + c2['killed-by-check'], c2['killed-by-check'], ", ".join(f"{k} {v}" for k, v in k2.most_common())))
+    cl2 = collections.Counter(tri2[r['id']][0] for r in rows2 if r['status'] == 'SURVIVED')
+    out.append("Survivors (%d): %s.\n" % (c2['SURVIVED'], ", ".join(f"{k} {v}" for k, v in cl2.most_common())))
+    out.append("| id | site | mutation | class | why |\n|---|---|---|---|---|")
+    g2 = collections.OrderedDict()
+    for r in rows2:
+        if r['status'] == 'SURVIVED':
+            g2.setdefault(tuple(tri2[r['id']]), []).append(r)
+    for (cls, why), rs in sorted(g2.items(), key=lambda kv: (not kv[0][0].startswith('gap'), kv[0][0])):
+        ids = ", ".join(str(r['id']) for r in rs[:6]) + (" …(%d)" % len(rs) if len(rs) > 6 else "")
+        sites = sorted({f"{r['file']}:{r['func'] or r['line']}" for r in rs})
+        out.append("| %s | %s | %s | %s | %s |" % (ids, "; ".join(sites[:3]) + (" …" if len(sites) > 3 else ""), "; ".join(sorted({r['kind'] for r in rs})), cls, why.replace("|", "\\|")))
+    out.append("\nRetest of the gaps (`retest-gen2-results.jsonl`, `retest-gen2b-results.jsonl`): all killed (C06, C14).")
+except FileNotFoundError:
+    pass
 open('/verif/mutation/SUMMARY.md', 'w').write("\n".join(out) + "\n")
 print("\n".join(out[:14]))
